@@ -7,7 +7,7 @@ drawn number of scheduler events while a heartbeat task keeps running on the loo
 import asyncio
 import threading
 
-from props.common import Injected, InjectedBase, Obj
+from props.common import Injected, InjectedBase, InjectedRuntime, Obj
 from props.scopes import capture, family, make_state
 from sim import threads
 from sim.loop import SimStop
@@ -50,7 +50,7 @@ class C18(Prop):
         T0 = fam["types"][0]
         kind = KINDS[s.draw(len(KINDS), "kind")]
         shape = s.draw(3, "shape")
-        raises = s.weighted((4, 2, 1), "raises")  # 0 value, 1 Exception, 2 BaseException subclass
+        raises = s.weighted((4, 2, 1, 1), "raises")  # 0 value, 1 Exception, 2 BaseException subclass, 3 RuntimeError subclass
         awaitable_result = (not raises) and s.chance(1, 4, "awaitable-result")
         depth = s.draw(4, "depth")
         nest = [s.draw(2, "nest-kind") for _ in range(depth)]
@@ -77,7 +77,7 @@ class C18(Prop):
                 return iter(())
 
         result_obj = AwaitableResult() if awaitable_result else Obj("result")
-        exc_obj = InjectedBase("boom") if raises == 2 else Injected("boom")
+        exc_obj = {2: InjectedBase, 3: InjectedRuntime}.get(raises, Injected)("boom")
         cause_obj = Injected("the cause")
         exc_obj.__cause__ = cause_obj  # as left by `raise X from Y` inside the function
         seen = {"calls": 0, "thread": None, "args": None, "state": None, "parked": 0, "beats_while_parked": 0}
@@ -176,13 +176,15 @@ class C18(Prop):
             wrapped = asynchronous(loop=sim.loop, executor=explicit_ex)(f)
         elif kind == "asynchronous-method":
             original = m
-            Host = type("Host", (), {"m": asynchronous(m)})
+            Host = type("Host", (), {"m": asynchronous(m), "__eq__": lambda a, b: type(a) is type(b),
+                                     "__hash__": lambda a: 11})  # receivers are value-equal but distinct objects
             first_host = Host()
             first_host.label = "first"
             wrapped = first_host.m
         elif kind == "asynchronous(executor)-method":
             original = m
-            Host = type("Host", (), {"m": asynchronous(executor=explicit_ex)(m)})
+            Host = type("Host", (), {"m": asynchronous(executor=explicit_ex)(m), "__eq__": lambda a, b: type(a) is type(b),
+                                     "__hash__": lambda a: 11})
             first_host = Host()
             first_host.label = "first"
             wrapped = first_host.m
@@ -243,6 +245,7 @@ class C18(Prop):
         host_obj = MetaHost()
         metas += [("asynchronous-bound-method", host_obj.am, MetaHost.__dict__["am"].__wrapped__),
                   ("cache-bound-method", host_obj.cm, MetaHost.__dict__["cm"].__wrapped__)]
+        metas += [("cache-builtin", cache(len), len), ("retry-builtin", retry(len), len), ("traced-builtin", traced(len), len)]
         if not is_method:
             metas.append((kind, wrapped, original))
         for label, prod, orig in metas:
